@@ -978,13 +978,11 @@ the local correction itself — keys, neighbour lists, `ρ_i`, the exact growth 
 distance term, and the fact that the local configurations `(Y_i, Z_i)` of the transformed sample
 are exactly the transformed configurations of the sample.
 
-MISSING (it enters as the hypotheses `hcorr_scale` and `hcorr_rot`): invariance of the SVD-based
-local correction `corr Y_i Z_i` (ellipsoid membership count + logs of singular-value ratios, with
-their `1e-12` guards inactive) under similarity maps of the local configuration. It is true of
-the mathematical SVD (singular values scale by `a` and are invariant under orthogonal maps; the
-ellipsoid test is invariant), but Mathlib has no packaged singular-value theory in which to
-state it for the real function, whose run-time behaviour is LAPACK's. The harness checks these two
-laws on the real function instead (DESIGN §6 C12, tie (ii)). -/
+HYPOTHESES `hcorr_scale` and `hcorr_rot`: invariance of the local correction `corr Y_i Z_i` under
+similarity maps of the local configuration, for an ARBITRARY correction functional. They are
+discharged for the mathematical SVD-based correction `corrMath` (Mathlib's
+`LinearMap.singularValues`) in `CEProofs/C12Svd.lean`, whose `geom_laws_real` is this theorem
+without any hypothesis about the correction. -/
 theorem geom_laws_partial (E : Env α) (hcast : ∀ m, E.cast m = (m : α))
     (logN logCd dOverN dA : α) (X : List (List α)) (k d : ℕ)
     (hw : ∀ r ∈ X, r.length = d) (hd : dOverN * (X.length : α) = dA) :
